@@ -154,7 +154,18 @@ def one_history(acc, seed, tag, batch=None):
     batch = batch or r.choice([3, 5, 8, 12, 15])
     W = world.World(seed=r.randrange(1 << 30), strategy=r.choice(["uniform", "app-first", "newest"]), batch=batch)
     A, P = "4911" + gen.s_from(r, gen.DIGITS, 7), "4922" + gen.s_from(r, gen.DIGITS, 7)
-    W.add_client(A)
+    # stack options an application may set: none of them changes which keys count as uploaded
+    from yowsup.layers.interface import YowInterfaceLayer
+    from yowsup.layers.axolotl.props import PROP_IDENTITY_AUTOTRUST
+    orr = gen.rng(seed, ID, tag + "/options")
+    props = {}
+    if orr.random() < 0.4:
+        props[YowInterfaceLayer.PROP_RECONNECT_ON_STREAM_ERR] = orr.random() < 0.5
+    if orr.random() < 0.3:
+        props[PROP_IDENTITY_AUTOTRUST] = orr.random() < 0.7
+    for k_, v_ in props.items():
+        acc.count("option:%s=%s" % (k_.rsplit(".", 1)[-1], v_))
+    W.add_client(A, props=props)
     W.add_client(P)
     n = r.randint(5, 30)
     events = ["login"] + [r.choice(EVENTS) for _ in range(n - 1)]
